@@ -189,3 +189,66 @@ def report(pid, hits, repo):
                 percent=round(100. * got / tot, 1) if tot else None, functions=res,
                 note='line coverage of the anchored functions of the REAL code during this run '
                      '(sys.monitoring); a measurement of the generators, not a verdict')
+
+
+# ----------------------------------------------------------------------------------------------------------------
+# Advisory: did the anchored code change since the model was last reviewed against it?  (DESIGN §2.3, end)
+# ----------------------------------------------------------------------------------------------------------------
+
+COMMON_FILES = ['io/array.py', 'utils/_types.py', 'utils/_misc.py']     # helpers most anchored functions call
+
+
+def anchor_digests(pid, repo):
+    """function -> sha1 of its AST (no positions, no comments, docstrings kept out), for the anchored functions;
+    plus one entry per anchored file and per common helper file (the whole file's AST)."""
+    import ast
+    import hashlib
+    out = {}
+    for f in sorted(set(ANCHORS.get(pid, {})) | set(COMMON_FILES)):
+        try:
+            out['file:%s' % f] = hashlib.sha1(ast.dump(ast.parse((Path(repo) / 'phylib' / f).read_text())).encode()).hexdigest()[:16]
+        except (OSError, SyntaxError):
+            out['file:%s' % f] = 'unreadable'
+    for f, pats in ANCHORS.get(pid, {}).items():
+        path = Path(repo) / 'phylib' / f
+        try:
+            tree = ast.parse(path.read_text())
+        except (OSError, SyntaxError):
+            out['%s' % f] = 'unreadable'
+            continue
+
+        def walk(node, pre):
+            for c in node.body:
+                if isinstance(c, (ast.FunctionDef, ast.AsyncFunctionDef)):
+                    q = pre + c.name
+                    if any(fnmatch.fnmatchcase(q, p) for p in pats):
+                        body = c.body
+                        if body and isinstance(body[0], ast.Expr) and isinstance(getattr(body[0], 'value', None), ast.Constant) \
+                                and isinstance(body[0].value.value, str):
+                            body = body[1:]
+                        txt = ast.dump(c.args) + ''.join(ast.dump(b) for b in body) + ''.join(ast.dump(d) for d in c.decorator_list)
+                        key = '%s::%s' % (f, q)
+                        n = 2
+                        while key in out:           # property getter / setter pairs share a name
+                            key = '%s::%s#%d' % (f, q, n)
+                            n += 1
+                        out[key] = hashlib.sha1(txt.encode()).hexdigest()[:16]
+                elif isinstance(c, ast.ClassDef):
+                    walk(c, pre + c.name + '.')
+        walk(tree, '')
+    return out
+
+
+def anchors_changed(pid, repo, verif):
+    """Names of anchored functions whose AST differs from the digests recorded in anchors_digest.json (written by
+    tools/update_anchor_digests.py for the tree the models were last reviewed against). Advisory only."""
+    import json
+    p = Path(verif) / 'anchors_digest.json'
+    if not p.exists():
+        return []
+    allref = json.loads(p.read_text())
+    if allref.get('_python') != '%d.%d' % sys.version_info[:2]:
+        return []                                   # digests of another Python version are not comparable
+    ref = allref.get(pid, {})
+    cur = anchor_digests(pid, repo)
+    return sorted(k for k in set(ref) | set(cur) if ref.get(k) != cur.get(k))
